@@ -94,6 +94,26 @@ def shadow_doc(rnd):
     return '<p:root xmlns:p="urn:t">%s</p:root>' % ''.join(parts), len(parts)
 
 
+QN_XSD = ('<xs:schema xmlns:xs="%s" xmlns:t="urn:t" targetNamespace="urn:t" elementFormDefault="qualified">'
+          '<xs:element name="root"><xs:complexType><xs:sequence><xs:element name="item" maxOccurs="unbounded"><xs:complexType>'
+          '<xs:sequence><xs:element name="q" type="xs:QName" minOccurs="0" maxOccurs="unbounded"/></xs:sequence>'
+          '<xs:attribute name="a" type="xs:QName"/></xs:complexType></xs:element></xs:sequence></xs:complexType>'
+          '</xs:element></xs:schema>' % XS)
+
+
+def qname_doc(rnd):
+    """QName values whose prefixes are declared on the streamed chunk itself, on an inner element, on the root, or
+    nowhere: the namespace scope of every chunk matters for the verdict."""
+    items = []
+    for _ in range(rnd.randint(1, 5)):
+        decl = rnd.choice(['', '', ' xmlns:p="urn:p"', ' xmlns:p="urn:q" xmlns:r="urn:r"'])
+        a = rnd.choice(['', ' a="p:x"', ' a="t:y"', ' a="r:z"', ' a="plain"'])
+        kids = ''.join('<t:q%s>%s</t:q>' % (rnd.choice(['', ' xmlns:k="urn:k"']), rnd.choice(['p:x', 'k:y', 't:z', 'w']))
+                       for _ in range(rnd.randint(0, 2)))
+        items.append('<t:item%s%s>%s</t:item>' % (decl, a, kids))
+    return '<t:root xmlns:t="urn:t">%s</t:root>' % ''.join(items), len(items)
+
+
 def big_doc(rnd):
     """A document of the template family larger than the parser's read buffer (> 64 KiB): keys, key references
     and IDREFs reach across many streamed chunks and across several reads of the underlying file."""
@@ -269,7 +289,8 @@ def compare_doc(s, xsd, doc, nchunks, st, label, replaying=False):
 
 def shards(tier, seed):
     return [('dg', k, tier, seed) for k in range(10)] + [('tpl', k, tier, seed) for k in range(6)] + \
-           [('big', k, tier, seed) for k in range(4)] + [('shadow', k, tier, seed) for k in range(2)]
+           [('big', k, tier, seed) for k in range(4)] + [('shadow', k, tier, seed) for k in range(2)] + \
+           [('qname', k, tier, seed) for k in range(2)]
 
 
 def run_shard(desc):
@@ -285,6 +306,15 @@ def run_shard(desc):
             s = schemas['11' if rnd.random() < .3 else '10']
             st_.sample({'generator': 'sections/items', 'doc': doc[:300]}, cap=2)
             return compare_doc(s, TPL_XSD, doc, nsec, st_, 'template')
+    elif kind == 'qname':
+        n = 400 if tier == 'thorough' else 60
+        schemas = {v: c(QN_XSD) for v, c in (('10', xmlschema.XMLSchema10), ('11', xmlschema.XMLSchema11))}
+
+        def body(rnd, st_):
+            doc, nch = qname_doc(rnd)
+            s = schemas['11' if rnd.random() < .3 else '10']
+            st_.sample({'generator': 'QName values under chunk-level namespace declarations', 'doc': doc[:300]}, cap=2)
+            return compare_doc(s, QN_XSD, doc, nch, st_, 'qname')
     elif kind == 'shadow':
         n = 400 if tier == 'thorough' else 60
         schemas = {v: c(SHADOW_XSD) for v, c in (('10', xmlschema.XMLSchema10), ('11', xmlschema.XMLSchema11))}
